@@ -189,6 +189,19 @@ def behaviour(res, rng, tier):
         cf.add(n, f'#[derive(derive_more::{X})] pub struct T(pub Probe);\npub fn run() {{ grid_{X}!("{n}", T(Probe(7)), true, "{TYCH[X]}"); }}',
                main_call=f"c{n}::run();")
         meta[str(n)] = f"#[derive({X})] struct T(Probe);  expected=pass-through under {X} (no attribute)"
+    # an enum-level bare `{_variant}` is a Display placeholder: under the Display derive it is the variant's own output
+    # (pass-through), under every other derive it wraps the variant's text and the caller's flags are inert (deterministic
+    # since round 7; seed C05-h was caught by a random item only for some generator seeds)
+    for X in G.TRAITS:
+        for lit in ('"{_variant}"', '"{}", _variant', '"{0}", _variant', '"{v}", v = _variant'):
+            n += 1
+            an = G.ATTR_NAME[X]
+            passthrough = X == "Display"
+            cf.add(n, f'#[derive(derive_more::{X})] #[{an}({lit})] pub enum T {{ A(Probe), B {{ f: Probe }} }}\n'
+                      f'pub fn run() {{ grid_{X}!("{n}", T::A(Probe(7)), {"true" if passthrough else "false"}, "{TYCH[X] if passthrough else ""}"); '
+                      f'grid_{X}!("{n}", T::B {{ f: Probe(7) }}, {"true" if passthrough else "false"}, "{TYCH[X] if passthrough else ""}"); }}',
+                   main_call=f"c{n}::run();")
+            meta[str(n)] = f"#[derive({X})] #[{an}({lit})] enum T {{ A(Probe), B {{ f: Probe }} }}  expected={'pass-through under Display' if passthrough else 'inert'}"
     for (X, t, body, val, bare, Y) in pick:
         n += 1
         ych = TYCH[Y]
